@@ -160,3 +160,58 @@ def past_only_lit(r, atoms):
     if k < 0.2:
         return ("init", sign, r.choice(atoms))
     return ("atom", sign, r.choice(atoms), r.choice([0, 0, -1, -1, -2]))
+
+# --------------------------------------------------------------------------- systematic operator grids (C03/C07/C16)
+
+def unary_shapes():
+    """every unary operator shape of the body language, n-fold variants with n in 1..3"""
+    sh = [lambda f: ("~", f)]
+    for n in (1, 2, 3):
+        for w in (False, True):
+            sh.append(lambda f, n=n, w=w: ("prev", n, w, f))
+            sh.append(lambda f, n=n, w=w: ("next", n, w, f))
+    for t in ("evP", "alP", "evF", "alF", "init", "fin"):
+        sh.append(lambda f, t=t: (t, f))
+    return sh
+
+def binary_shapes():
+    sh = []
+    for op in ("and", "or", "limp", "rimp", "equiv"):
+        sh.append(lambda f, g, op=op: ("b", op, f, g))
+    for t in ("since", "trigger", "unt", "rel"):
+        sh.append(lambda f, g, t=t: (t, f, g))
+    for t in ("seqp", "seqn"):
+        for w in (False, True):
+            sh.append(lambda f, g, t=t, w=w: (t, w, f, g))
+    return sh
+
+def pair_grid(atoms):
+    """all compositions op1(op2(.)) of operator shapes over atoms: unary∘unary, unary∘binary, binary∘unary (both sides)"""
+    a, b = ("a", atoms[0]), ("a", atoms[1 % len(atoms)])
+    U, B = unary_shapes(), binary_shapes()
+    out = []
+    for u1 in U:
+        for u2 in U:
+            out.append(u1(u2(a)))
+        for b2 in B:
+            out.append(u1(b2(a, b)))
+    for b1 in B:
+        for u2 in U:
+            out.append(b1(u2(a), b))
+            out.append(b1(a, u2(b)))
+    return out
+
+def triple_sample(r, atoms, n):
+    a, b = ("a", atoms[0]), ("a", atoms[1 % len(atoms)])
+    U, B = unary_shapes(), binary_shapes()
+    out = []
+    for _ in range(n):
+        f = r.choice([a, b])
+        for _ in range(3):
+            if r.random() < 0.6:
+                f = r.choice(U)(f)
+            else:
+                g = r.choice([a, b])
+                f = r.choice(B)(f, g) if r.random() < 0.5 else r.choice(B)(g, f)
+        out.append(f)
+    return out
